@@ -117,6 +117,9 @@ impl RtpsStatefulReader {
         source_guid_prefix: GuidPrefix,
         source_timestamp: Option<Time>,
     ) {
+        if data_frag_submessage.fragment_size() == 0 {
+            return;
+        }
         let writer_guid = Guid::new(source_guid_prefix, data_frag_submessage.writer_id());
         let sequence_number = data_frag_submessage.writer_sn();
         if let Some(writer_proxy) = self
